@@ -9,6 +9,7 @@ package main
 //   bad-closure-id     a request carries a NUMBER where a closure id belongs and the handler invokes that
 //                      callable — from its own goroutine and from one it spawned: the process survives, Link
 //                      returns the decode error, no CallClosure request with an empty id is written    (C06, C16, C17)
+//   value-for-error-only  a response with a superfluous value for a function that returns only an error is accepted (C17, C09)
 //   error-response-write-fails  the handler returns an error and the transport refuses the response: Link returns
 //                      the transport's error                                                            (C16, C03)
 
@@ -56,9 +57,10 @@ func (rpLocal) Each(ctx context.Context, n int, spawn bool, cb func(ctx context.
 type rpRemote struct {
 	Ping func(ctx context.Context) (string, error)
 	Get  func(ctx context.Context) (int, error)
+	Nop  func(ctx context.Context) error
 }
 
-var rawPeerScenarios = []string{"dup-responses", "bad-response-value", "bad-closure-id", "bad-closure-id-spawned", "error-response-write-fails"}
+var rawPeerScenarios = []string{"value-for-error-only", "dup-responses", "bad-response-value", "bad-closure-id", "bad-closure-id-spawned", "error-response-write-fails"}
 
 func subRawPeer(args []string) {
 	sc := args[0]
@@ -153,6 +155,29 @@ func subRawPeer(args []string) {
 		if parked > 0 {
 			fmt.Printf("BAD after %d calls that were each answered twice on a live link, %d publisher goroutine(s) are still parked (goroutines %d -> %d): the duplicates found entries of calls that had already finished\n", n, parked, before, runtime.NumGoroutine())
 		}
+	case "value-for-error-only":
+		// a peer may put any value next to an empty error for a function that returns only an error: it is ignored
+		done := make(chan error, 1)
+		go func() { done <- rem.Nop(context.Background()) }()
+		id, ok := nextReq()
+		if !ok {
+			fmt.Println("BAD no request written")
+			return
+		}
+		inRes.Put([]byte(fmt.Sprintf(`{"call":%q,"value":{"unexpected":[1,2,3]},"err":""}`, id)))
+		select {
+		case err := <-done:
+			if err != nil {
+				fmt.Printf("BAD an error-only call answered with err \"\" and a (superfluous) value failed: %v\n", err)
+			}
+		case <-time.After(watchdog):
+			fmt.Println("BAD an error-only call answered with a superfluous value hangs")
+		}
+		select {
+		case err := <-linkErr:
+			fmt.Printf("BAD a superfluous value in the response to an error-only call ended the link: %v\n", err)
+		case <-time.After(30 * time.Millisecond):
+		}
 	case "bad-response-value":
 		done := make(chan callResult, 1)
 		go func() { v, err := rem.Get(context.Background()); done <- callResult{true, v, err} }()
@@ -225,10 +250,10 @@ func runRawPeer(rep *Report, prop string) {
 	rel := map[string][]string{
 		"C05": {"dup-responses", "bad-closure-id-spawned"},
 		"C15": {"dup-responses"},
-		"C09": {"bad-response-value"},
+		"C09": {"bad-response-value", "value-for-error-only"},
 		"C06": {"bad-response-value", "bad-closure-id", "bad-closure-id-spawned"},
 		"C16": {"bad-closure-id", "error-response-write-fails"},
-		"C17": {"bad-closure-id"},
+		"C17": {"bad-closure-id", "value-for-error-only"},
 		"C03": {"error-response-write-fails"},
 		"C11": {"bad-closure-id"},
 	}[prop]
